@@ -7,6 +7,7 @@ import (
 	"iter"
 	"math/rand/v2"
 	"net/netip"
+	"slices"
 	"sort"
 	"strings"
 
@@ -410,6 +411,19 @@ func Battery(txn statedb.ReadTxn, tbl statedb.Table[*Obj], m *TableModel, probes
 	if rev != m.Rev {
 		fail("revision", "Revision=%d want %d", rev, m.Rev)
 	}
+	// initialization state is part of what a transaction shows
+	pend := tbl.PendingInitializers(txn)
+	inited, _ := tbl.Initialized(txn)
+	if !slices.Equal(pend, m.Pending) && !(len(pend) == 0 && len(m.Pending) == 0) {
+		fail("initializers", "PendingInitializers=%v want %v", pend, m.Pending)
+	}
+	if inited != (len(m.Pending) == 0) {
+		fail("initializers", "Initialized=%v with pending initializers %v", inited, m.Pending)
+	}
+	for _, n := range pend {
+		h.Str(n)
+	}
+	h.Str(fmt.Sprint(inited))
 	all := observe(tbl.All(txn))
 	objs := m.sortedObjs()
 	ok := len(all) == len(objs)
